@@ -202,6 +202,27 @@ def r2_fences(ctx):
                                 if not guarded:
                                     probs.append(f"`{txt(sub)}` is read without testing len({broad.name}.args): a check raising an exception "
                                                  "without arguments makes the handler itself raise IndexError")
+                        # elements of err.args are arbitrary objects: only formatting / str() / repr() may touch them
+                        def _is_arg_elem(n):
+                            return isinstance(n, ast.Subscript) and isinstance(n.value, ast.Attribute) and n.value.attr == "args" \
+                                and isinstance(n.value.value, ast.Name) and n.value.value.id == broad.name
+                        aliases = set()
+                        for sub in ast.walk(broad):
+                            if isinstance(sub, ast.Assign) and _is_arg_elem(sub.value):
+                                aliases |= {t.id for t in sub.targets if isinstance(t, ast.Name)}
+                        for sub in ast.walk(broad):
+                            recv = None
+                            if isinstance(sub, ast.Attribute):
+                                recv = sub.value
+                            elif isinstance(sub, ast.Subscript) and not _is_arg_elem(sub):
+                                recv = sub.value
+                            elif isinstance(sub, ast.BinOp):
+                                recv = sub.left if (_is_arg_elem(sub.left) or (isinstance(sub.left, ast.Name) and sub.left.id in aliases)) else sub.right
+                            if recv is not None and (_is_arg_elem(recv) or (isinstance(recv, ast.Name) and recv.id in aliases)):
+                                probs.append(f"`{txt(sub)[:60]}` treats an element of {broad.name}.args as a string / container: a check that raises "
+                                             "KeyError(2) or an exception carrying any non-string argument makes the handler itself raise "
+                                             "AttributeError/TypeError, which leaks from validate instead of being reported as a failed check")
+                                break
                         for x in res:
                             p = kw(x, "passed")
                             if not (isinstance(p, ast.Constant) and p.value is False):
